@@ -1,7 +1,369 @@
 package c11
 
-import "verifharness/kit"
+import (
+	"fmt"
+	"math"
+	"strings"
+
+	"verifharness/kit"
+)
+
+// Branch-directed generator of C11 cases (op text; executed by execCase).
+//
+// Determinism rules (the vendored reducers sort with an unstable sort above 12 elements and keep a heap for
+// top/bottom, so some outputs are only determined when ties cannot occur):
+//   * batches / runs have at most 12 points unless all values are distinct or the function does not sort
+//     selected points (percentile, mode);
+//   * top/bottom: within a batch point times are distinct, within a stream run values are distinct or the
+//     points are identical;
+//   * movingAverage over floats uses small dyadic values (the vendored reducer keeps a running sum).
+
+var fns = []string{"count", "sum", "mean", "median", "mode", "min", "max", "first", "last", "spread", "stddev",
+	"distinct", "percentile", "top", "bottom", "elapsed", "difference", "cumulativeSum", "movingAverage"}
+
+var groupPool = []string{"-", "g=a", "g=b", "dc=x,g=a"}
+
+var pcts = []float64{0, 1, 10, 25, 33.3, 50, 75, 90, 99, 100, 150, -5}
+
+var bigInts = []int64{math.MaxInt64, math.MinInt64, 1 << 62, -(1 << 62), (1 << 53) + 1, -(1 << 53) - 1, math.MaxInt64 - 1}
+var bigFloats = []float64{1e300, -1e300, 1e-300, 1 << 60, 0.1, 1.0 / 3.0, 123456.789, -2.5e10}
+
+type valGen struct {
+	r        *kit.Rand
+	dyadic   bool // floats restricted to small dyadics
+	extremes bool
+	dupHeavy bool
+	used     map[string]bool
+	distinct bool
+}
+
+func (g *valGen) one(kind string) string {
+	r := g.r
+	switch kind {
+	case "int":
+		var v int64
+		switch {
+		case g.extremes && r.Chance(1, 4):
+			v = kit.Pick(r, bigInts)
+		case g.dupHeavy:
+			v = int64(r.Intn(3)) - 1
+		default:
+			v = int64(r.Intn(41)) - 20
+		}
+		return fmt.Sprintf("i:%d", v)
+	case "float":
+		var v float64
+		switch {
+		case g.extremes && !g.dyadic && r.Chance(1, 4):
+			v = kit.Pick(r, bigFloats)
+		case g.dupHeavy:
+			v = float64(r.Intn(3)) * 0.5
+		default:
+			v = float64(r.Intn(161)-80) / 8
+		}
+		if v == 0 {
+			v = 0 // no negative zero
+		}
+		return "f:" + kit.F64(v)
+	case "string":
+		return "s:" + kit.Esc(kit.Pick(r, []string{"a", "b", "zz", "", "a b"}))
+	default:
+		if r.Bool() {
+			return "b:1"
+		}
+		return "b:0"
+	}
+}
+
+func (g *valGen) val(kind string) string {
+	for i := 0; i < 50; i++ {
+		v := g.one(kind)
+		if !g.distinct || !g.used[v] {
+			g.used[v] = true
+			return v
+		}
+		g.dupHeavy = false
+	}
+	return g.one(kind)
+}
+
+func pickKind(r *kit.Rand) string {
+	switch k := r.Intn(100); {
+	case k < 45:
+		return "int"
+	case k < 82:
+		return "float"
+	case k < 93:
+		return "string"
+	default:
+		return "bool"
+	}
+}
+
+func sortsSelected(fn string) bool { return fn == "percentile" || fn == "mode" }
+
+// genPoints produces the points of one batch / run. times[i] are the point times.
+func genPoints(r *kit.Rand, fn string, gtags string, times []int64, baseKind string, sameTime bool) []string {
+	n := len(times)
+	vg := &valGen{r: r, used: map[string]bool{}}
+	vg.dyadic = fn == "movingAverage"
+	vg.extremes = r.Chance(1, 5)
+	vg.dupHeavy = r.Chance(1, 3)
+	vg.distinct = (n > 12 && sortsSelected(fn)) || ((fn == "top" || fn == "bottom") && sameTime)
+	extraTags := r.Chance(1, 2)
+	if (fn == "top" || fn == "bottom") && sameTime {
+		// a run can be continued by a later call: equal (value, time) points must be indistinguishable
+		extraTags = false
+	}
+	mixed := r.Chance(1, 6)
+	firstBad := r.Chance(1, 8)
+	var pts []string
+	for i := 0; i < n; i++ {
+		kind := baseKind
+		if mixed && r.Chance(1, 3) {
+			kind = pickKind(r)
+		}
+		var fields []string
+		missing := r.Chance(1, 12) || (firstBad && i == 0 && r.Bool())
+		if firstBad && i == 0 && !missing {
+			kind = kit.Pick(r, []string{"string", "bool"})
+		}
+		if !missing {
+			fields = append(fields, "v="+vg.val(kind))
+		}
+		if r.Chance(1, 3) || missing {
+			fields = append(fields, fmt.Sprintf("w=i:%d", r.Intn(10)))
+		}
+		tags := "-"
+		if extraTags {
+			tags = "h=" + kit.Pick(r, []string{"x", "y", "z"})
+		}
+		pts = append(pts, fmt.Sprintf("%d|%s|%s", times[i], tags, strings.Join(fields, ",")))
+	}
+	return pts
+}
+
+func batchTimes(r *kit.Rand, fn string, tmax int64, n int) []int64 {
+	times := make([]int64, n)
+	distinctTimes := fn == "top" || fn == "bottom" || r.Chance(2, 3)
+	style := r.Intn(10)
+	t := tmax - int64(n) - int64(r.Intn(5))
+	for i := 0; i < n; i++ {
+		switch {
+		case distinctTimes || style < 6:
+			t += 1 + int64(r.Intn(2))
+		case style < 8: // duplicates
+			t += int64(r.Intn(2))
+		default: // out of order
+			t = tmax - int64(r.Intn(n+3))
+		}
+		times[i] = t
+	}
+	if fn == "top" || fn == "bottom" {
+		// make sure they are distinct even after the random walk
+		seen := map[int64]bool{}
+		for i := range times {
+			for seen[times[i]] {
+				times[i]++
+			}
+			seen[times[i]] = true
+		}
+	}
+	return times
+}
 
 func genCase(r *kit.Rand, i int, tier string) []string {
-	return []string{"cfg batch sum - 0 -", "b - 10 1|-|v=i:1;2|-|v=i:2", "final"}
+	fn := fns[i%len(fns)]
+	if r.Chance(1, 4) {
+		fn = kit.Pick(r, fns)
+	}
+	mode := "batch"
+	if r.Chance(2, 5) {
+		mode = "stream"
+	}
+	as := kit.Pick(r, []string{"-", "x", "x", "v", "w", "value.1"})
+	pt := "0"
+	if r.Chance(7, 20) {
+		pt = "1"
+	}
+	arg := "-"
+	nArg := 1 + r.Intn(4)
+	switch fn {
+	case "percentile":
+		arg = "p:" + kit.F64(kit.Pick(r, pcts))
+	case "top", "bottom", "movingAverage":
+		arg = fmt.Sprintf("n:%d", nArg)
+	case "elapsed":
+		arg = fmt.Sprintf("u:%d", kit.Pick(r, []int64{1000, 2000, 3000, 7000}))
+	}
+	ops := []string{fmt.Sprintf("cfg %s %s %s %s %s", mode, fn, kit.Esc(as), pt, arg)}
+	ng := 1 + r.Intn(3)
+	groups := make([]string, ng)
+	perm := []int{0, 1, 2, 3}
+	for a := range perm {
+		b := a + r.Intn(len(perm)-a)
+		perm[a], perm[b] = perm[b], perm[a]
+	}
+	for g := range groups {
+		groups[g] = groupPool[perm[g]]
+	}
+	maxN := 12
+	if tier == "thorough" && r.Chance(1, 6) {
+		maxN = 40
+	}
+	if mode == "batch" {
+		nb := 2 + r.Intn(7)
+		tmax := int64(100 + r.Intn(50))
+		stickyKind := pickKind(r)
+		for b := 0; b < nb; b++ {
+			g := kit.Pick(r, groups)
+			tmax += int64(r.Intn(3)) * 10
+			if r.Chance(1, 10) {
+				tmax -= 25 // batches need not arrive in time order
+			}
+			n := 0
+			switch k := r.Intn(20); {
+			case k < 3:
+				n = 0
+			case k < 6:
+				n = 1
+			case k < 8:
+				n = 2
+			default:
+				n = 1 + r.Intn(maxN)
+			}
+			if r.Chance(1, 2) {
+				stickyKind = pickKind(r) // kind changes between batches / groups; otherwise the cache is hit
+			}
+			if n == 0 {
+				ops = append(ops, fmt.Sprintf("b %s %d -", g, tmax))
+				continue
+			}
+			times := batchTimes(r, fn, tmax, n)
+			pts := genPoints(r, fn, g, times, stickyKind, false)
+			ops = append(ops, fmt.Sprintf("b %s %d %s", g, tmax, strings.Join(pts, ";")))
+		}
+	} else {
+		np := 4 + r.Intn(36)
+		cur := map[string]int64{}
+		kindOf := map[string]string{}
+		var pending []string
+		for len(ops)-1+len(pending) < np || len(pending) > 0 {
+			if len(pending) > 0 {
+				ops = append(ops, pending[0])
+				pending = pending[1:]
+				continue
+			}
+			g := kit.Pick(r, groups)
+			t, ok := cur[g]
+			if !ok {
+				t = int64(10 + r.Intn(5))
+			} else {
+				switch k := r.Intn(10); {
+				case k < 7:
+					t += 1 + int64(r.Intn(3))
+				case k < 9:
+					t += 10
+				default:
+					t -= 1 + int64(r.Intn(2)) // time goes back: still a new run
+				}
+			}
+			cur[g] = t
+			if _, ok := kindOf[g]; !ok || (!isTrans(fn) && r.Chance(1, 3)) || (isTrans(fn) && r.Chance(1, 25)) {
+				kindOf[g] = pickKind(r)
+			}
+			// a run of 1..k points at time t (interleaving with other groups happens between runs only
+			// when the run is emitted at once; to interleave inside runs, emit the run in two halves)
+			n := 1
+			switch k := r.Intn(10); {
+			case k < 4:
+				n = 1
+			case k < 7:
+				n = 2
+			default:
+				n = 1 + r.Intn(6)
+			}
+			if isTrans(fn) {
+				n = 1
+				if r.Chance(1, 5) {
+					n = 2 // two points at the same time (difference drops the second)
+				}
+			}
+			times := make([]int64, n)
+			for j := range times {
+				times[j] = t
+			}
+			pts := genPoints(r, fn, g, times, kindOf[g], true)
+			for _, p := range pts {
+				pending = append(pending, fmt.Sprintf("p %s %s", g, p))
+			}
+			if n >= 2 && r.Chance(1, 3) && len(groups) > 1 {
+				// interleave: half of the run now, then a point of another group, then the rest
+				half := pending[:n/2]
+				rest := append([]string(nil), pending[n/2:]...)
+				ops = append(ops, half...)
+				g2 := kit.Pick(r, groups)
+				if g2 != g {
+					t2, ok := cur[g2]
+					if !ok {
+						t2 = int64(10 + r.Intn(5))
+						cur[g2] = t2
+						kindOf[g2] = pickKind(r)
+					}
+					p2 := genPoints(r, fn, g2, []int64{t2}, kindOf[g2], true)
+					ops = append(ops, fmt.Sprintf("p %s %s", g2, p2[0]))
+				}
+				pending = rest
+			}
+		}
+		// close the last runs of some groups so that they are emitted
+		for _, g := range groups {
+			if t, ok := cur[g]; ok && r.Chance(2, 3) {
+				p := genPoints(r, fn, g, []int64{t + 100}, kindOf[g], true)
+				ops = append(ops, fmt.Sprintf("p %s %s", g, p[0]))
+			}
+		}
+	}
+	ops = append(ops, "final")
+	if fn == "elapsed" {
+		// units are whole microseconds in TICKscript: spread the (nanosecond) times out, keeping equal times equal
+		for k, l := range ops {
+			ops[k] = scaleTimes(l)
+		}
+	}
+	return ops
+}
+
+func tmap(t int64) int64 { return t*1000 + (t*t*37)%1000 }
+
+func scaleTimes(line string) string {
+	t := strings.Fields(line)
+	conv := func(s string) string {
+		var v int64
+		fmt.Sscanf(s, "%d", &v)
+		return fmt.Sprintf("%d", tmap(v))
+	}
+	scalePts := func(tok string) string {
+		if tok == "-" {
+			return tok
+		}
+		ps := strings.Split(tok, ";")
+		for i, p := range ps {
+			q := strings.SplitN(p, "|", 2)
+			ps[i] = conv(q[0]) + "|" + q[1]
+		}
+		return strings.Join(ps, ";")
+	}
+	switch t[0] {
+	case "b":
+		t[2] = conv(t[2])
+		t[3] = scalePts(t[3])
+	case "p":
+		t[2] = scalePts(t[2])
+	}
+	return strings.Join(t, " ")
+}
+
+func isTrans(fn string) bool {
+	return fn == "elapsed" || fn == "difference" || fn == "cumulativeSum" || fn == "movingAverage"
 }
